@@ -6,6 +6,7 @@ import (
 	"bytes"
 	"errors"
 	"fmt"
+	"io"
 	"strings"
 
 	"verifharness/payload"
@@ -23,6 +24,8 @@ type Scripted struct {
 	ci       int
 	Final    error
 	WithData bool // deliver the final error together with the last bytes
+	Once     bool // the final error is reported that one time only; reads after it see io.EOF (a transport need not repeat an error)
+	reported bool
 	Empties  *payload.SplitMix
 	emptyRun int
 	Pulled   int
@@ -40,6 +43,10 @@ func (s *Scripted) Read(p []byte) (int, error) {
 	}
 	s.emptyRun = 0
 	if s.pos >= len(s.Data) {
+		if s.Once && s.reported {
+			return 0, io.EOF
+		}
+		s.reported = true
 		return 0, s.Final
 	}
 	for s.ci < len(s.Cuts) && s.Cuts[s.ci] <= s.pos {
@@ -57,6 +64,7 @@ func (s *Scripted) Read(p []byte) (int, error) {
 	s.pos += n
 	s.Pulled += n
 	if s.pos >= len(s.Data) && s.WithData {
+		s.reported = true
 		return n, s.Final
 	}
 	return n, nil
